@@ -10,7 +10,7 @@ from pv import generated, judges, plans
 
 ID = 'C19'
 TITLE = 'Savable round trip / loader precedence'
-ANCHORS = ['plumpy.persistence:Savable.save_members', 'plumpy.persistence:Savable._get_value', 'plumpy.persistence:_ensure_object_loader', 'plumpy.persistence:Savable.load', 'plumpy.persistence:Savable.save', 'plumpy.persistence:SavableFuture.recreate_from', 'plumpy.persistence:SavableFuture.save_instance_state', 'plumpy.loaders:DefaultObjectLoader.load_object']
+ANCHORS = ['plumpy.persistence:Savable.save_members', 'plumpy.persistence:Savable._get_value', 'plumpy.persistence:_ensure_object_loader', 'plumpy.persistence:Savable.load', 'plumpy.persistence:Savable.save', 'plumpy.persistence:SavableFuture.recreate_from', 'plumpy.persistence:SavableFuture.save_instance_state', 'plumpy.loaders:DefaultObjectLoader.load_object', 'plumpy.loaders:DefaultObjectLoader.identify_object', 'plumpy.loaders:DefaultObjectLoader.load_object']
 LEVEL = 'exploration'
 TECHNIQUE = ('runtime monitoring with a reference check per member kind: generated Savable class shapes are saved, the original mutated, the state '
              'recreated and every declared member compared by kind; loader configurations (default, global custom, per-save custom, unknown class) '
